@@ -17,8 +17,11 @@ type vDecoded struct {
 
 var vDecodeLog []vDecoded
 
-// deterministic contract stub for the tick decoder: the same (interval, ticks) decodes to the same
-// instant on every read; different ticks of one interval decode in tick order
+// deterministic contract stub for the tick decoder: a tick value that the encoder stub produced for a
+// timestamp of this interval decodes to that timestamp (C10 bounds the real codec's error by one
+// resolution step; vRangeLimit keeps its range bounds at least two steps away from every record, so
+// the real decoder takes the same side of every comparison when a counterexample is replayed);
+// any other tick value decodes to some instant of the interval, in tick order
 func vStubGetTimeFromTicksMemo(intervalStart uint64, intervalsPerDay, intervalTicks uint32) (uint64, uint32) {
 	for _, d := range vDecodeLog {
 		if d.start == intervalStart && d.ticks == intervalTicks {
@@ -26,6 +29,14 @@ func vStubGetTimeFromTicksMemo(intervalStart uint64, intervalsPerDay, intervalTi
 		}
 	}
 	tf := int64(86400 / intervalsPerDay)
+	for _, c := range vTickLog {
+		cs := uint64(c.t / 1000000000)
+		if cs >= intervalStart && cs < intervalStart+uint64(tf) && c.k == intervalTicks {
+			sec, ns := cs, uint32(c.t%1000000000)
+			vDecodeLog = append(vDecodeLog, vDecoded{intervalStart, intervalTicks, sec, ns})
+			return sec, ns
+		}
+	}
 	sec := intervalStart + uint64(rt.Fresh("dsec", 0, tf-1))
 	ns := uint32(rt.Fresh("dns", 0, 999999999))
 	for _, d := range vDecodeLog {
@@ -190,6 +201,16 @@ func vRangeLimit(withLimit bool) {
 	if variable {
 		qsn, qen = rt.Int("q_start_ns", 0, 999999999), rt.Int("q_end_ns", 0, 999999999)
 	}
+	if variable {
+		// keep the range bounds two resolution steps of the tick codec away from every record (see the decoder stub)
+		sep := 2 * ((tfSec*1000000000 + (1 << 32) - 1) >> 32)
+		for i := 0; i < n; i++ {
+			t := (slot[i]+sec[i])*1000000000 + int64(ns[i])
+			a, b := qs*1000000000+qsn, qe*1000000000+qen
+			rt.Assume(a+sep < t || t+sep < a)
+			rt.Assume(b+sep < t || t+sep < b)
+		}
+	}
 	start, end := time.Unix(qs, qsn).UTC(), time.Unix(qe, qen).UTC()
 	res, err := e.query(tbk, useRange, start, end, limit, dir)
 	rt.Assert(err == nil, "restricted-query-without-error")
@@ -257,4 +278,67 @@ func VerifC12LimitOverflow() {
 	rt.Assert(len(got) == 2, "row-count")
 	rt.Assert(got[0].sec == t0 && got[1].sec == t0+86400, "row-time")
 	rt.Assert(got[0].v == v0 && got[1].v == v1, "row-value")
+}
+
+// C12 (b): ranges longer than one read buffer (8192 records). A fixed-length 1Min bucket holds three
+// rows at minutes chosen from candidates around the buffer boundaries of the scanned range; the query
+// covers 20000 minutes (not a multiple of the buffer) or exactly two buffers, with a row limit from
+// either end; the backward scan has to cross buffers and clamp at the start of the range.
+func VerifC12LongRange() {
+	rt.Opt("clock", 1)
+	root := rt.TempDir()
+	defer rt.Cleanup()
+	e := vStart(root, 7)
+	tbk := io.NewTimeBucketKey("AAPL/1Min/OHLCV")
+	t0 := time.Date(2020, 3, 2, 0, 0, 0, 0, time.UTC).Unix()
+	cand := []int64{0, 3616, 8191, 11808, 16384, 19999}
+	if rt.Tier() == 1 {
+		cand = []int64{0, 3000, 3615, 3616, 8191, 8192, 11807, 11808, 16383, 16384, 19999}
+	}
+	const n = 3
+	var min [n]int64
+	var vs [n]int32
+	for i := 0; i < n; i++ {
+		s := string(rune('0' + i))
+		min[i] = cand[int(rt.Fix(rt.Int("minute"+s, 0, int64(len(cand)-1))))]
+		vs[i] = rt.Int32("v" + s)
+	}
+	rt.Assume(min[0] < min[1] && min[1] < min[2])
+	rt.Reach("entered")
+	for i := 0; i < n; i++ {
+		rt.Assert(vWriteRows(e, tbk, []int64{t0 + 60*min[i]}, []int32{vs[i]}) == nil, "write-accepted")
+	}
+	rt.Reach("written")
+	span := int64(20000)
+	if rt.Fix(rt.Int("range_is_two_buffers", 0, 1)) == 1 {
+		span = 16384
+	}
+	limit := int(rt.Fix(rt.Int("limit", 1, n)))
+	dir := io.FIRST
+	if rt.Fix(rt.Int("last", 0, 1)) == 1 {
+		dir = io.LAST
+	}
+	start, end := time.Unix(t0, 0).UTC(), time.Unix(t0+60*span-1, 0).UTC()
+	res, err := e.query(tbk, true, start, end, limit, dir)
+	rt.Assert(err == nil, "restricted-query-without-error")
+	got := vRowsOf(res, false)
+	rt.Reach("queried")
+	var want []vRow
+	for i := 0; i < n; i++ {
+		if min[i] < span {
+			want = append(want, vRow{sec: t0 + 60*min[i], v: vs[i]})
+		}
+	}
+	if len(want) > limit {
+		if dir == io.FIRST {
+			want = want[:limit]
+		} else {
+			want = want[len(want)-limit:]
+		}
+	}
+	rt.Assert(len(got) == len(want), "row-count")
+	for i := range want {
+		rt.Assert(got[i].sec == want[i].sec, "row-time")
+		rt.Assert(got[i].v == want[i].v, "row-value")
+	}
 }
